@@ -24,7 +24,10 @@
          is offered once: event-driven suppression is off in these runs);
          or ClientStats.CoalesceCount is not the sum of the duplicates
       5  a permanently stalled subscription did not end with an error, or
-         another one did
+         another one did: a stream may end with the timeout error only if one of
+         ITS Sends stayed blocked (in particular not after an early return of
+         the send routine -- ACL-denied response, sync marker -- followed by a
+         quiet period of several timeouts: family acl-quiet)
          or a subscriber that starts after everything is over (its snapshot
          comes straight from the cache) sees a duplicate count
       6  a live subscriber did not converge: replaying its responses does not
@@ -47,13 +50,18 @@ Record case := mkCase8 {
   k_returned : bool;                        (* every write returned within 5 s *)
   k_bad : bool;
   k_late : bool;                            (* the last subscriber starts after everything else is over *)
+  k_hidden : list string;                   (* targets the RPC's ACL hides (family acl-quiet; empty otherwise) *)
 }.
 
 (** ** Model side: the run as the harness logged it, replayed *)
 
 Definition hy : hyps := mkHyps false false.
 
+(** ACL-denied responses (sendSubscribeResponse's early return) are not in the
+    transition system (C07 covers the ACL): the cases of family acl-quiet come
+    without a log and are judged by K_P only. *)
 Definition model_side (c : case) : list (nat * N) :=
+  match k_steps c with [] => [] | _ =>
   match validate hy (init 1 (k_subs c)) 0 (k_steps c) with
   | inr i => [(i, 1%N)]
   | inl st =>
@@ -62,7 +70,7 @@ Definition model_side (c : case) : list (nat * N) :=
          && forallb (fun pc => ocont_eqb (cache_at st (fst pc)) (Some (snd pc))) (k_dump c)
          && Nat.eqb (List.length (k_dump c)) (List.length (st_tree st))
       then [] else [(List.length (k_steps c), 1%N)]
-  end.
+  end end.
 
 (** ** Specification side K_P *)
 
@@ -103,6 +111,8 @@ Definition total_dups (rs : list resp) : nat :=
 
 Definition has_delete (c : case) : bool := negb (Nat.eqb (n_dels (map fst (k_ops c))) 0).
 
+Definition hidden (c : case) (p : path) : bool := existsb (String.eqb (target_of p)) (k_hidden c).
+
 Definition spec_sub (c : case) (i : nat) (qu : list path * bool) : list (nat * N) :=
   let rs := nth i (k_streams c) [] in
   let ended := nth i (k_ended c) false in
@@ -115,13 +125,15 @@ Definition spec_sub (c : case) (i : nat) (qu : list path * bool) : list (nat * N
        let paths := dedup (flat_map upd_path (map fst (k_ops c)) ++ upd_paths ph2) in
        (* deletes re-create leaves: the walk-free count only holds without them *)
        (if has_delete c || (k_late c && Nat.eqb (S i) (List.length (k_subs c))) then []
-        else if forallb (fun p => Nat.eqb (sum_dups p ph2) (offers c (fst qu) p)) paths
+        else if forallb (fun p => hidden c p || Nat.eqb (sum_dups p ph2) (offers c (fst qu) p)) paths
              then [] else [(i, 4%N)])
        ++ (if Nat.eqb (total_dups rs) (nth i (k_coal c) 0%nat) then [] else [(i, 4%N)])
        ++ (if k_late c && Nat.eqb (S i) (List.length (k_subs c)) && negb (Nat.eqb (total_dups rs) 0)
            then [(i, 4%N)] else [])
        ++ (if forallb (fun p =>
                  let m := existsb (fun q => covers q p) (fst qu) in
+                 (* a hidden target never shows in the stream *)
+                 if hidden c p then negb (touched p rs) else
                  negb m
                  || (snd qu && negb (touched p rs))
                  || ocont_eqb (replay_path p None rs) (dlookup p (k_dump c)))
